@@ -327,6 +327,31 @@ func runC11(r *run) {
 	r.extra["exhaustive"] = true
 	r.extra["max_sequence_length"] = maxLen
 	slog.VerifResetGlobals()
+	// a Print whose message is white space of the less common kinds (form feed, vertical tab, NEL, NBSP, U+3000) is a record
+	// like any other: it has the shape of its logger's format (only blank / tab / CR / LF messages give the bare empty line)
+	for k, format := range []string{"json", "logfmt", "color"} {
+		for _, msg := range []string{"\f", "\v", "\u0085", "\u00a0", "\u3000 \f", "\u2028"} {
+			rc := &recorder{}
+			l := slog.New(fmt.Sprintf("c11ws-%d", k)).SetWriter(rc).SetErrorWriter(rc).SetLevel(slog.InfoLevel)
+			switch format {
+			case "json":
+				l.SetJSONMode(true)
+			case "logfmt":
+				l.SetColorMode(false)
+			}
+			l.Print(msg, "k", 1)
+			w := rc.take()
+			shape := "none"
+			if len(w) == 1 {
+				shape = classify(w[0])
+			}
+			r.seen(fmt.Sprintf("exotic-whitespace|%s|%q", format, msg))
+			if shape != format {
+				r.violate(violation{What: "a Print record whose message is uncommon white space does not have the shape of the logger's format",
+					Input: map[string]any{"format": format, "message": fmt.Sprintf("%q", msg), "call": "Print(msg, \"k\", 1)"}, Expected: format, Actual: fmt.Sprintf("%s: %q", shape, w)})
+			}
+		}
+	}
 	// JSON loggers under go test with error values: the records keep the JSON shape (the twin binary, oracle only)
 	if exe := os.Getenv("VERIF_HARNESS"); exe != "" {
 		if err := r.mergeChild(exec.Command(exe+".test", "-test.v", "c11test", fmt.Sprint(r.seed), r.tier)); err != nil {
